@@ -176,8 +176,8 @@ def main():
                "UTC_OFFSET_H hours from UTC (replay uses the real clock: TZ + freezegun)"],
         bounds=["groups g0 -> {g1,g2}, g1 -> {g2}, g2 leaf; g0: 2 members from {absent,@g1,@g2,plain}, g1: 1 such member + a "
                 "literal, g2: a literal; arguments @g0 followed by nothing/@g1/@g2/a path",
-                "4 date patterns (yyyymmdd[0], [6], days[1] with format specs, two indices in one member) x nested or not x 3 "
-                "local times (00:30 on Mar 1 of a leap year, 23:30 on Mar 3, Jan 4) x 3 zone offsets",
+                "4 date patterns (yyyymmdd[0], [6], days[1] with format specs, two indices in one member) x nested or not x 4 "
+                "local times (00:30 on Mar 1 of a leap year, 23:30 on Mar 3, Jan 4, Jan 2 of an ISO-year-53 year) x 3 zone offsets",
                 "concatenation: xs of 1 and ys of 2 arguments over {@g0,@g1,x.zo}", "7 plain path spellings"],
         outside=["cyclic maps (excluded by the quantifier)", "nesting deeper than 3 or more than 3 groups",
                  "members containing braces that are not date patterns",
@@ -185,8 +185,8 @@ def main():
     T = 150 if tier == "quick" else 500
     # engine cross-validation spaces (vlib/concrete_worker.py); CrossHair skips functools.lru_cache under tracing, so a result
     # remembered across calls (two_days) can only show in the untraced runs
-    CC = {"nesting": [[0, 4], [0, 4], [0, 4], [-1, 3]], "dates": [[4, 8], [0, 2], [0, 3], [-12, 15]],
-          "two_days": [[4, 8], [0, 2], [0, 3], [0, 3]], "concat": [[0, 4], [0, 4], [0, 4], [0, 3], [0, 3], [2, 3]],
+    CC = {"nesting": [[0, 4], [0, 4], [0, 4], [-1, 3]], "dates": [[4, 8], [0, 2], [0, 4], [-12, 15]],
+          "two_days": [[4, 8], [0, 2], [0, 4], [0, 4]], "concat": [[0, 4], [0, 4], [0, 4], [0, 3], [0, 3], [2, 3]],
           "plain_name": [[0, 7], [0, 2]]}
     conds = [xh.Cond(H, n, timeout=T, meta={"family": "c18"}, cc={"ranges": CC[n], "max": 400})
              for n in ("nesting", "dates", "two_days", "concat", "plain_name")]
